@@ -15,8 +15,10 @@ ID = 'C18'
 BUDGET = {'quick': 16000, 'thorough': 500000}
 RULE = ('C03\'s template-built example multisets with repeats (list form with '
         'repeated entries, or frequency dict with counts 1-5), all options, '
-        'size None or 0 (non-sampling, where "examples used" and "examples '
-        'supplied" coincide). Oracle: coverage(dedup) recomputed with Python '
+        'size None or 0 (where "examples used" and "examples supplied" '
+        'coincide), sampling Sizes and 101-4250 constructed distinct '
+        'examples (where the figures are about the examples used, each of '
+        'which must carry its supplied repeat count). Oracle: coverage(dedup) recomputed with Python '
         're from the kept examples; incremental_coverage(dedup) equal, as an '
         'ordered mapping, to an independent greedy implementation of the '
         'documented rule; values non-increasing and summing to '
@@ -24,8 +26,11 @@ RULE = ('C03\'s template-built example multisets with repeats (list form with '
         'and index pointing at the right expression; n_examples equals the '
         'number of supplied kept examples (distinct when dedup). Non-trivial: '
         '>=2 expressions and >=1 repeated example; distinct by case hash.')
-ASSUMPTIONS = ['sampling Size settings are not generated: under sampling '
-               '"examples used by rexpy" is the sample, not the supplied set']
+ASSUMPTIONS = ['under a sampling Size the figures are about "the examples '
+               'used by rexpy" (n_examples docstring): the sample plus the '
+               'failures added, read from Extractor.examples; each must be a '
+               'supplied example carrying its supplied repeat count, and '
+               'every figure is then checked over those']
 
 
 def expand(case):
@@ -49,7 +54,7 @@ def expand(case):
 def valid_many(m):
     import math
     return m is None or (isinstance(m, dict) and isinstance(m.get('n'), int)
-                         and 4 <= m['n'] <= 600
+                         and 4 <= m['n'] <= 5000
                          and isinstance(m.get('stride'), int)
                          and m['stride'] >= 1
                          and math.gcd(m['stride'], m['n']) == 1
@@ -60,7 +65,8 @@ def valid_many(m):
 @st.composite
 def freq_case(draw, tier):
     if draw(st.integers(0, 11)) == 0:
-        n = draw(st.sampled_from([101, 128, 150, 257, 400]))
+        n = draw(st.sampled_from([101, 128, 150, 257, 400, 101, 150, 257,
+                                  4250]))
         stride = draw(st.sampled_from([s_ for s_ in (1, 3, 7, 11, 37, 59)
                                        if __import__('math').gcd(s_, n)
                                        == 1]))
@@ -84,8 +90,11 @@ def freq_case(draw, tier):
     return {
         'examples': xs, 'freqs': freqs,
         'opts': draw(G.opts_strategy(with_pruning=False)),
-        'size': draw(st.sampled_from([None, None, 0])),
-        'seed': None,
+        'size': draw(st.one_of(st.sampled_from([None, None, 0]),
+                               st.sampled_from([None, None, 0]),
+                               st.sampled_from([None, None, 0]),
+                               G.size_strategy())),
+        'seed': draw(st.sampled_from([None, 1, 2])),
         'form': 'list' if form == 'list' else 'dict',
         'avoid_known': draw(st.sampled_from([True] * 6 + [False])),
     }
@@ -96,7 +105,7 @@ def strategy(tier):
 
 
 def valid(case):
-    if case.get('size') not in (None, 0):
+    if not G.valid_size(case.get('size')):
         return False
     if not valid_many(case.get('many')):
         return False
@@ -190,6 +199,32 @@ def run(case, ctx):
     rexes = list(x.results.rex) if x.results else []
     strings = order
     freqs = [truth[s] for s in strings]
+    sampling = (isinstance(case.get('size'), dict) and any(
+        k in case['size'] for k in ('do_all', 'do_all_exceptions'))) or (
+        case.get('size') is None and len(strings) > 100)
+    if sampling:
+        # the figures are about the examples rexpy used (its sample plus the
+        # failures it added): each of them is a supplied example and counts
+        # as often as it was supplied
+        out.label('sampling-size')
+        used = list(x.examples.strings)
+        ufreq = list(x.examples.freqs)
+        if len(set(used)) != len(used) or any(s not in truth for s in used):
+            out.violate('examples-used', 'not-a-sub-multiset',
+                        'examples used %r, supplied %r' % (used[:20],
+                                                           dict(truth)))
+            return out
+        bad = [(s_, f, truth[s_]) for (s_, f) in zip(used, ufreq)
+               if f != truth[s_]]
+        if bad:
+            out.violate('examples-used', 'frequency',
+                        'used examples carry the wrong repeat count '
+                        '(string, used as, supplied): %r' % (bad[:6],))
+            return out
+        if len(used) < len(strings):
+            out.label('proper-sample')
+        strings = used
+        freqs = ufreq
     n_total, n_uniq = sum(freqs), len(strings)
     repeated = any(f > 1 for f in freqs)
     out.nontrivial = len(rexes) >= 2 and repeated
@@ -296,4 +331,5 @@ LEVEL_TEXT = ('Generated-input exploration: example multisets with repeats x '
               'compared with an independently computed value.')
 LEVEL_NOTE = ('Trusted: Python re; my greedy re-implementation of the '
               'documented rule (ties by sort order of the anchored '
-              'expressions). Restricted to non-sampling Size settings.')
+              'expressions). Under sampling the figures are judged over '
+              'the examples rexpy reports having used.')
